@@ -119,6 +119,12 @@ func termArgs(c termCell) []any {
 		return []any{"k1", c.ID, "k2", "v w"}
 	case "attr":
 		return []any{slog.Int("k1", c.ID), slog.String("k2", "v w")}
+	case "huge": // more attributes than any pooled slice is sized for
+		args := make([]any, 0, 2300)
+		for i := 0; i < 1150; i++ {
+			args = append(args, fmt.Sprintf("h%04d", i), i)
+		}
+		return args
 	}
 	return nil
 }
@@ -356,6 +362,16 @@ func termChildMain(args []string) int {
 		}
 	}
 	testing := is.InTesting()
+	// The process mode (go test or not) is what it was when the process started.  Programs replace
+	// os.Args later (the usual way to test a command line), which must not change it: every other
+	// batch runs with an argument vector that looks like the OTHER mode.
+	if len(b.Cells) > 0 && b.Cells[0].ID%2 == 1 {
+		if testing {
+			os.Args = []string{"app", "serve", "--port", "8080"}
+		} else {
+			os.Args = []string{"/tmp/go-build1/b001/app.test", "-test.v", "-test.run", "^TestX$"}
+		}
+	}
 	for _, c := range b.Cells {
 		msg := termMsg(c, b.Seed)
 		lg.cur = c.ID
@@ -467,7 +483,11 @@ func termDecode(c termCell, msg string, p []byte) string {
 		if s, _ := m["level"].(string); s != termLevelName[c.R] {
 			return "incomplete:level differs"
 		}
-		if wantAttrs {
+		if wantAttrs && c.Inp == "huge" {
+			if fmt.Sprint(m["h0000"]) != "0" || fmt.Sprint(m["h1149"]) != "1149" {
+				return "incomplete:attributes missing"
+			}
+		} else if wantAttrs {
 			if fmt.Sprint(m["k1"]) != id || fmt.Sprint(m["k2"]) != "v w" {
 				return "incomplete:attributes missing"
 			}
@@ -489,7 +509,11 @@ func termDecode(c termCell, msg string, p []byte) string {
 		if m["level"] != termLevelName[c.R] {
 			return "incomplete:level differs"
 		}
-		if wantAttrs && (m["k1"] != id || m["k2"] != "v w") {
+		if wantAttrs && c.Inp == "huge" {
+			if m["h0000"] != "0" || m["h1149"] != "1149" {
+				return "incomplete:attributes missing"
+			}
+		} else if wantAttrs && (m["k1"] != id || m["k2"] != "v w") {
 			return "incomplete:attributes missing"
 		}
 	case "color":
@@ -518,7 +542,11 @@ func termDecode(c termCell, msg string, p []byte) string {
 			}
 			rest = rest[found+1:]
 		}
-		if wantAttrs && !(strings.Contains(lines[0], "k1="+id) && strings.Contains(lines[0], `k2="v w"`)) {
+		if wantAttrs && c.Inp == "huge" {
+			if !(strings.Contains(lines[0], "h0000=0 ") && strings.Contains(lines[0], "h1149=1149")) {
+				return "incomplete:attributes missing"
+			}
+		} else if wantAttrs && !(strings.Contains(lines[0], "k1="+id) && strings.Contains(lines[0], `k2="v w"`)) {
 			return "incomplete:attributes missing"
 		}
 	default:
